@@ -6,8 +6,35 @@ import pyvc.spec  # noqa: F401
 PARSER_INV = ("0 <= self.current and self.current <= self.end and self.end <= len(self.wire) "
               "and 0 <= self.furthest and self.furthest <= len(self.wire)")
 
-REG.declare_class("dns.wirebase.Parser", inv=PARSER_INV, wire=T.bytes, current=T.int, end=T.int, furthest=T.int)
-REG.declare_class("dns.wire.Parser", inv=PARSER_INV, wire=T.bytes, current=T.int, end=T.int, furthest=T.int)
+
+
+def _mk_parser(cls):
+    def mk(f):
+        import importlib
+
+        mod, _, nm = cls.rpartition(".")
+        k = getattr(importlib.import_module(mod), nm)
+        p = k(f["wire"], 0)
+        p.current, p.end, p.furthest = f["current"], f["end"], f["furthest"]
+        return p
+
+    return mk
+
+
+def _gen_parser(cls):
+    def gen(rng):
+        n = rng.choice([0, 1, 2, 3, 4, 6, 12, 40, 300])
+        wire = bytes(rng.choice([0, 1, 2, 3, 63, 64, 0xC0, 0xC1, 0xFF, rng.randrange(256)]) for _ in range(n))
+        end = rng.randint(0, n)
+        cur = rng.randint(0, end)
+        return _mk_parser(cls)({"wire": wire, "current": cur, "end": end, "furthest": rng.randint(0, n)})
+
+    return gen
+
+
+for _c in ("dns.wirebase.Parser", "dns.wire.Parser"):
+    REG.declare_class(_c, inv=PARSER_INV, make=_mk_parser(_c), gen=_gen_parser(_c),
+                      wire=T.bytes, current=T.int, end=T.int, furthest=T.int)
 
 PARSER = T.obj("dns.wirebase.Parser")
 FRAME = ["self.wire == old_self.wire", "self.end == old_self.end"]
